@@ -5,7 +5,9 @@
 #define MAXE 64
 #define MAXL 8
 
-struct elem { int key; int id; struct cstl_slist_node sn; };
+/* two node members: header `offs k0 k1 ..` threads list i through member k_i (different node offsets) */
+struct elem { int key; int id; struct cstl_slist_node sn; long pad[3]; struct cstl_slist_node sn2; };
+static int offs[MAXL];
 
 static struct elem * pool[MAXE];
 static int keys[MAXE], nkeys;
@@ -20,6 +22,7 @@ static struct elem * get(int id)
         pool[id]->key = id < nkeys ? keys[id] : 0;
         pool[id]->id = id;
         pool[id]->sn.n = (void *)(uintptr_t)0xdeadbeef;
+        pool[id]->sn2.n = (void *)(uintptr_t)0xdeadbeef;
     }
     return pool[id];
 }
@@ -72,7 +75,7 @@ static void run_case(const struct h_case * c)
 {
     int i, k, started = 0;
 
-    nkeys = 0; nlists = 1; cmpmode = 0; cmpcalls = 0; vsign = 1;
+    nkeys = 0; nlists = 1; cmpmode = 0; cmpcalls = 0; vsign = 1; memset(offs, 0, sizeof(offs));
     memset(pool, 0, sizeof(pool));
     for (i = 0; i < c->nlines; i++) {
         const struct h_line * l = &c->lines[i];
@@ -85,9 +88,10 @@ static void run_case(const struct h_case * c)
         if (h_weq(l, 0, "nlists")) { nlists = a; continue; }
         if (h_weq(l, 0, "cmpmode")) { cmpmode = a; continue; }
         if (h_weq(l, 0, "vsign")) { vsign = a < 0 ? -1 : 1; continue; }
+        if (h_weq(l, 0, "offs")) { for (k = 1; k < l->nw && k <= MAXL; k++) offs[k - 1] = (int)h_int(l, k) ? 1 : 0; continue; }
         if (!started) {
             for (k = 0; k < nlists; k++)
-                cstl_slist_init(&lists[k], offsetof(struct elem, sn));
+                cstl_slist_init(&lists[k], offs[k] ? offsetof(struct elem, sn2) : offsetof(struct elem, sn));
             started = 1;
         }
         if (a < 0 || a >= nlists) { printf("precond\n"); return; }
